@@ -1,7 +1,7 @@
 (* C07/Properties.v — property theorems only.  Model: C07/Model.v (the code after fix commits
    e89b171, 07b228c; with the known finding F-C07a, whose fix 311264d was reverted by 0819a3f). *)
 From Coq Require Import String Lia.
-From RM Require Import C06.Model C06.Proofs C07.Model C07.Proofs C07.Proofs2.
+From RM Require Import C06.Model C06.Proofs C07.Model C07.Proofs C07.Proofs2 C07.Proofs3.
 From RM Require C08.Model C08.Proofs.
 Open Scope Z_scope.
 
@@ -92,8 +92,25 @@ Theorem c07_mock_exact :
 Proof. exact mock_framedata_exact. Qed.
 Print Assumptions c07_mock_exact.
 
-(* Program strings: the initial constants (incl. the '@' rule), assignment, .undef, 32-bit wrap. *)
-Theorem c07_refines_spec_partial :
+(* Program strings refine the documented semantics: for EVERY program text (arbitrary bytes), profile,
+   environment, and size fields within u32, the variables after the program are exactly those of the
+   independent [win_spec] (variables as a partial function, tokens classified first, `@` = truncate to a
+   multiple, "=tok" re-split, predefined constants incl. the `@` rule for .raSearch) — or both fail.
+   Together with c07_mock_exact this fixes the caller registers: the six outputs that are defined. *)
+Theorem c07_refines_spec :
+  forall p E i e,
+    info_u32 i -> u32 (e_gcps E) ->
+    match win_final_vars p E i e, win_spec E i e with
+    | Ret (Some m), Some f => forall k, vget k m = f k
+    | Ret None, None => True
+    | _, _ => False
+    end.
+Proof. exact win_refines_spec. Qed.
+Print Assumptions c07_refines_spec.
+
+(* Program strings, construct by construct: the initial constants (incl. the '@' rule), assignment,
+   .undef, 32-bit wrap. *)
+Theorem c07_program_string_facts :
   (* the predefined variables *)
   (forall E i e m, win_initial_vars E i e = Some m ->
      exists esp ebp fs,
@@ -124,7 +141,7 @@ Proof.
   exact (conj initial_vars_spec (conj assign_int (conj assign_var (conj assign_undef
         (conj vget_vset_same (conj vget_vdel_same wrap_ops)))))).
 Qed.
-Print Assumptions c07_refines_spec_partial.
+Print Assumptions c07_program_string_facts.
 
 (* FPO formulae incl. the leftover-return-address skip, on the abstract walker *)
 Theorem c07_fpo_formulae :
@@ -177,3 +194,15 @@ Example c07_nonvacuous_table :
 Proof.
   split; [repeat constructor; cbn; try lia; try reflexivity|vm_compute; reflexivity].
 Qed.
+
+Example c07_nonvacuous_spec :
+  let E := mkEnv (fun n => assoc n [(N_esp, 1600); (N_ebp, 16)])
+                 (mem_read 4 0 [0;0;0;0; 0;0;0;0; 0;0;0;0; 0;0;0;0; 12;0;0;0; 2;0;0;0]) 100 true 4 in
+  let e := bs "$T0 $ebp =$eip $T0 4 + ^ = $ebp $T0 ^ = $esp $T0 8 + = $esi .raSearch 4 @ =" in
+  let i := mkWin 100 16 0 0 8 4 12 0 (ProgramString e) in
+  info_u32 i /\ u32 (e_gcps E) /\
+  match win_spec E i e with
+  | Some f => f D_ebp = Some 12 /\ f D_esp = Some 24 /\ f D_eip = Some 2 /\ f D_esi = Some 20 /\ f D_edi = None
+  | None => False
+  end.
+Proof. vm_compute. repeat split; try reflexivity; try (intro H; discriminate H). Qed.
